@@ -254,7 +254,8 @@ def eval_traces(recs, name, shards=14, timeout=3000):
 C05_CLAUSES = {'construction_raised', 'decode_raised', 'binary_vector_of_length_2n',
                'correction_reproduces_syndrome', 'trivial_syndrome_trivial_correction'}
 C06_CLAUSES = {'same_syndrome_same_correction_whatever_the_history',
-               'caller_syndrome_not_modified', 'noise_tables_not_modified'}
+               'caller_syndrome_not_modified', 'noise_tables_not_modified',
+               'whether_a_syndrome_is_decoded_does_not_depend_on_the_history'}
 
 
 def shape_tag(size):
